@@ -251,8 +251,32 @@ def t2(ctx, res):
                 ok = False
                 why += " (conditional)"
             break
-        if p == "required" and not ok:
-            pass
+        if not ok:
+            # statement form: if <p not passed>: cls.p = lookup("p", d) else: cls.p = p
+            from .paths import decision_table as _dt2
+
+            def rec_p(e, p=p):
+                a = np_atom(e)
+                return ("NP", a[1]) if a and a[0] == p else None
+
+            def lab(path, p=p):
+                vals = [st.value for st in path.stmts if isinstance(st, ast.Assign) and any(norm(t) == f"cls.{p}" for t in st.targets)]
+                if not vals:
+                    return "unset"
+                v = vals[-1]
+                if norm(v) == p:
+                    return "passed"
+                if isinstance(v, ast.Call) and dotted(v.func) in lookup_fns and v.args and isinstance(v.args[0], ast.Constant) and v.args[0].value == p:
+                    return "inherited"
+                if isinstance(v, ast.Call) and dotted(v.func) in inherit_fns and len(v.args) == 2 and norm(v.args[0]) == p \
+                        and isinstance(v.args[1], ast.Constant) and v.args[1].value == p:
+                    return "slot"
+                return "other:" + norm(v)[:40]
+            tops = [st for st in new.body if not isinstance(st, (ast.FunctionDef, ast.Return))]
+            tbl, opq = _dt2(tops, ["NP"], rec_p, lab)
+            if tbl in ({(True,): {"inherited"}, (False,): {"passed"}}, {(True,): {"slot"}, (False,): {"slot"}}):
+                ok = True
+                why = "conditional statement form"
         res.check(ok, new, f"cls.{p} = <{p} if passed else inherited {p}>", detail={"found": why},
                   reason="class keyword falls back to the inherited attribute of the SAME name, and is stored on the class")
     # properties store exists
@@ -381,6 +405,8 @@ def t3(ctx, res):
         for p in enumerate_paths(f.body):
             if p.exit == "raise":
                 continue
+            if any(isinstance(st, tuple) and st[0] == "loop-skip" for st in p.stmts):
+                continue  # nothing to parse when the mapping is empty
             nodes = []
             for st in p.stmts:
                 if isinstance(st, ast.AST):
@@ -403,6 +429,10 @@ def t3(ctx, res):
                 ia = isinstance_atom(c[0], c[1])
                 if ia and ia[2] and ia[1] == ["bool"]:
                     excused = True
+                if ia and not ia[2] and "dict" in ia[1]:
+                    excused = True  # the value is not a schema (malformed or already parsed)
+                if ia and ia[2] and set(ia[1]) <= {"_Property", "Element", "list"}:
+                    excused = True  # already an element / a list of names
             if not excused:
                 bad.append(" and ".join(("" if pol else "not ") + norm(t) for t, pol in p.conds if not isinstance(t, str)) or "<unconditional>")
         return bad
@@ -709,9 +739,44 @@ def t6(ctx, res):
             mode = g[1].value if g and g[0] == "const" and isinstance(g[1], ast.Constant) else None
             res.check(mode == key, comp, f"_compose_elements({cls_name}, composition[{key!r}])", detail={"mode": mode},
                       reason="the element class built for a composition keyword has that keyword as its mode")
-    res.check(has("[MV_b] + MV_c['allOf']", comp), comp, "all_of = [base_element] + composition['allOf']",
-              reason="allOf branches and sibling keywords are conjoined")
-    res.check(has("Not(parse_element(MV_s['not'], MV_st))", comp), comp, "Not(parse_element(schema['not'], state))", reason="not is wrapped in Not")
+    # everything that must be conjoined reaches the list given to _compose_elements(AllOf, ...)
+    def contributions(name, seen=None):
+        seen = seen or set()
+        if name in seen:
+            return []
+        seen.add(name)
+        out = []
+        for n in walk_own(comp.body):
+            if isinstance(n, (ast.Assign, ast.AnnAssign)):
+                tg = n.targets if isinstance(n, ast.Assign) else [n.target]
+                if any(isinstance(t, ast.Name) and t.id == name for t in tg) and n.value is not None:
+                    out.append(n.value)
+            if isinstance(n, ast.Call) and isinstance(n.func, ast.Attribute) and norm(n.func.value) == name \
+                    and n.func.attr in ("append", "extend", "insert"):
+                out += list(n.args)
+        more = []
+        for e in out:
+            for x in ast.walk(e):
+                if isinstance(x, ast.Name) and x.id in comp.locals() and x.id != name and x.id not in [p.name for p in comp.params]:
+                    more += contributions(x.id, seen)
+        return out + more
+    parts = []
+    for node, b in find("_compose_elements(AllOf, MV_l)", comp):
+        for x in ast.walk(b["MV_l"]):
+            if isinstance(x, ast.Name) and x.id in comp.locals():
+                parts += contributions(x.id)
+        parts.append(b["MV_l"])
+    needles = {
+        "the sibling keywords (base element)": ["parse_element(MV_o, MV_st)"],
+        "allOf branches": ["MV_c['allOf']"],
+        "the oneOf composition": ["_compose_elements(OneOf, MV_c['oneOf'])"],
+        "the anyOf composition": ["_compose_elements(AnyOf, MV_c['anyOf'])"],
+        "the negation": ["Not(parse_element(MV_s['not'], MV_st))"],
+    }
+    for what, pats in needles.items():
+        found = any(has(pt, e) for e in parts for pt in pats)
+        res.judge(True if found else (None if not parts else False), comp, f"AllOf conjunction includes {what}",
+                  reason="sibling keywords, allOf, oneOf, anyOf and not are all conjoined")
     res.check(has("_compose_elements(AllOf, MV__)", comp), comp, "_compose_elements(AllOf, ...)", reason="the conjunction is an AllOf")
     res.floor("composition_rows", n_comp, 2)
     # _compose_elements semantics
